@@ -51,3 +51,24 @@ Lemma c16_field_table_covers :
           ["Signer"; "KeymasterPublicKeys"] = true.
 Proof. vm_compute. reflexivity. Qed.
 Goal True. idtac "@@OBL c16_field_table_covers". Abort.
+
+(* ---- how values that contain a lock travel (table lock_holder_passing, tools/extract/c16_copies.go):
+   a struct with a sync primitive inside (RuntimeState, ...) is handed around by pointer only.  A value
+   receiver / by-value parameter / result / explicit *p copy gives the callee a private copy of the mutex
+   while the maps inside still point at the shared data: its critical sections exclude nobody, and a copy
+   taken while the mutex is held is born locked.  The lexical lock table above cannot see that. *)
+Definition prow := (string * string * string * string)%type.   (* function, position, type, mode *)
+Definition p_pos (r : prow) : string := let '(_, p, _, _) := r in p.
+Definition p_type (r : prow) : string := let '(_, _, t, _) := r in t.
+Definition p_mode (r : prow) : string := let '(_, _, _, m) := r in m.
+
+(* the walker saw the methods of RuntimeState at all *)
+Lemma c16_lock_holder_table_covers :
+  existsb (fun r => String.eqb (p_pos r) "receiver" && String.eqb (p_type r) "RuntimeState" && String.eqb (p_mode r) "pointer") lock_holder_passing = true.
+Proof. vm_compute. reflexivity. Qed.
+Goal True. idtac "@@OBL c16_lock_holder_table_covers". Abort.
+
+Lemma c16_no_lock_copies : forallb (fun r => String.eqb (p_mode r) "pointer") lock_holder_passing = true.
+Proof. vm_compute. reflexivity. Qed.
+Goal True. idtac "@@OBL c16_no_lock_copies". Abort.
+
